@@ -148,8 +148,11 @@ func (t *tncSim) handle(f agwFrame) {
 			t.send(agwFrame{Port: P, Kind: 'd', From: c13Target, To: c13MyCall, Data: []byte("*** DISCONNECTED RETRYOUT With " + c13Target + "\r")})
 		case "connect-silent":
 		default:
-			t.connected = true
+			// the link is up once the acknowledgement is on the wire: the pusher thread must not get
+			// its data / disconnect frames out in front of it (AGWPE never reports data for a
+			// connection before the connection)
 			t.send(agwFrame{Port: P, Kind: 'C', From: c13Target, To: c13MyCall, Data: []byte("*** CONNECTED With " + c13Target + "\r")})
+			t.connected = true
 		}
 	case 'D':
 		if f.Port != P || f.From != c13MyCall || f.To != c13Target || f.PID != 0xf0 {
@@ -744,6 +747,7 @@ func C13(args []string) {
 		}
 		e.Check = func(choices []int, res *vs.Result) {
 			r.Evals.Add(1)
+			r.Heartbeat()
 			fs, poisoned := c13Judge(sc, &o, res)
 			if poisoned {
 				r.Add("poisoned_by_known_finding", 1)
